@@ -127,14 +127,16 @@ func runC17(t *testing.T, rng *rand.Rand, rec *sim.Rec, tier string, caseNo int)
 		rec.Violate("cred-format", "password", "%s password is not base64(HMAC-SHA1(secret, username))", kind.name)
 	}
 	check := func(u, p string, wantOK bool, what string) {
-		id, key, ok := handler(&turn.RequestAttributes{Username: u, Realm: realm, SrcAddr: &net.UDPAddr{IP: net.IPv4(10, 1, 0, 1), Port: 5000}})
+		// whatever request the credential arrives in (the server passes the method along)
+		method := pick(rng, []stun.Method{0, stun.MethodAllocate, stun.MethodRefresh, stun.MethodCreatePermission, stun.MethodChannelBind, stun.MethodConnect, stun.MethodConnectionBind, stun.MethodBinding})
+		id, key, ok := handler(&turn.RequestAttributes{Username: u, Realm: realm, SrcAddr: &net.UDPAddr{IP: net.IPv4(10, 1, 0, 1), Port: 5000}, Method: method})
 		now := time.Now().Unix()
 		if ok != wantOK {
 			k := "cred-rejected-before-expiry"
 			if ok {
 				k = "cred-accepted-after-expiry"
 			}
-			rec.Violate(k, fmt.Sprintf("%s/%s", kind.name, what), "%s handler returned ok=%v for %q at unix %d (expiry %d, %s), want %v", kind.name, ok, u, now, expiry, what, wantOK)
+			rec.Violate(k, fmt.Sprintf("%s/%s", kind.name, what), "%s handler returned ok=%v for %q (request method %v) at unix %d (expiry %d, %s), want %v", kind.name, ok, u, method, now, expiry, what, wantOK)
 
 			return
 		}
@@ -349,6 +351,15 @@ func runC17E2E(t *testing.T, rng *rand.Rand, rec *sim.Rec, tier string, caseNo i
 	if !late {
 		if err := try(5001, refPassword(username, "other")); err == nil {
 			rec.Violate("cred-e2e", "wrong-secret", "password derived from another secret allocated through a real server")
+		}
+		// the same server has accepted this credential a moment ago; once it has expired the
+		// server must turn it down all the same
+		if d := time.Until(time.Unix(expiry+1, 0).Add(200 * time.Millisecond)); d > 0 && d < 2*time.Hour {
+			time.Sleep(d)
+			if err := try(5002, password); err == nil {
+				rec.Violate("cred-e2e", "accepted-after-expiry", "%s credentials that the server had accepted before their expiry still allocate %v after it", kind.name, time.Since(time.Unix(expiry, 0)).Round(time.Millisecond))
+			}
+			rec.FP("e2e/%s/reused-after-expiry", kind.name)
 		}
 	}
 	rec.FP("e2e/%s/late=%v", kind.name, late)
